@@ -1116,8 +1116,27 @@ func verifyRecoveredOpts(c *core.Ctx, sig string, s *CrashSpec, specPath string,
 			maxTs, maxID = m.ts, m.id
 		}
 	}
+	// A commit whose call had not returned when the process died (neither an A nor an R line) and
+	// whose lifetime overlaps a DropPrefix/DropAll window may have been refused with ErrBlockedWrites
+	// after its timestamp was assigned - the refusal just was not logged any more. It is not a hole in
+	// the commit order.
+	maybeRefused := func(id string) bool {
+		if si.acked[id] || si.rejected[id] != "" {
+			return false
+		}
+		for _, d := range si.drops {
+			if d.end == 0 || d.end > si.iPos[id] {
+				return true
+			}
+		}
+		return false
+	}
 	for id, ts := range si.ts {
 		if !inS[id] && ts < maxTs && si.rejected[id] == "" && !preDrop[id] {
+			if maybeRefused(id) {
+				c.Count("crash.unreturned_commits_overlapping_a_drop", 1)
+				continue
+			}
 			c.Violation(sig+"|not-a-commit-order-prefix", fmt.Sprintf("transaction %s (commit ts %d) is lost although %s (commit ts %d) survived", id, ts, maxID, maxTs), w(map[string]any{"lost": id, "lost_ts": ts, "survivor": maxID, "survivor_ts": maxTs}))
 			break
 		}
